@@ -50,6 +50,13 @@ type lctx struct {
 	objs    map[string]int // lock / channel name -> id
 	objList []string
 	cut     int
+	maxDepth int
+	goBodies []goBody // bodies of `go func(){...}()` statements: roots of their own (a new goroutine holds no lock)
+	goCount  map[string]int
+}
+
+type goBody struct {
+	name, body string
 }
 
 func (c *lctx) obj(name string) int {
@@ -200,6 +207,7 @@ func alt(xs []string) string {
 
 type fstate struct {
 	f      *lfunc
+	root   bool // the top-level translation of f at full depth
 	depth  int
 	defers []string // events deferred so far (replayed in reverse before a return)
 }
@@ -309,7 +317,7 @@ func (c *lctx) baseName(f *lfunc) string {
 }
 
 func (c *lctx) funcBody(f *lfunc, depth int) string {
-	st := &fstate{f: f, depth: depth}
+	st := &fstate{f: f, depth: depth, root: depth == c.maxDepth}
 	body := c.block(st, f.decl.Body.List)
 	return seq(body, c.deferred(st))
 }
@@ -355,6 +363,15 @@ func (c *lctx) stmt(st *fstate, s ast.Stmt) string {
 		out := "SSkip"
 		for _, a := range x.Call.Args {
 			out = seq(out, c.exprEv(st, a))
+		}
+		if lit, ok := x.Call.Fun.(*ast.FuncLit); ok && st.root {
+			// the goroutine's body is analysed as a root of its own
+			sub := &fstate{f: st.f, depth: st.depth}
+			body := c.block(sub, lit.Body.List)
+			body = seq(body, c.deferred(sub))
+			b := c.baseName(st.f)
+			c.goCount[b]++
+			c.goBodies = append(c.goBodies, goBody{fmt.Sprintf("%s__go%d", b, c.goCount[b]), body})
 		}
 		return out
 	case *ast.DeferStmt:
@@ -474,10 +491,11 @@ func (c *lctx) stmt(st *fstate, s ast.Stmt) string {
 }
 
 func runLockTrace(repo string, spec lockSpec, out string) {
-	c := &lctx{byObj: map[*types.Func]*lfunc{}, objs: map[string]int{}}
+	c := &lctx{byObj: map[*types.Func]*lfunc{}, objs: map[string]int{}, goCount: map[string]int{}}
 	if spec.Depth == 0 {
 		spec.Depth = 4
 	}
+	c.maxDepth = spec.Depth
 	var pats []string
 	for _, d := range spec.Packages {
 		pats = append(pats, "./"+d)
@@ -550,6 +568,11 @@ func runLockTrace(repo string, spec lockSpec, out string) {
 			order = append(order, n)
 		}
 	}
+	for _, g := range c.goBodies {
+		n := g.name + fmt.Sprintf("_%d", spec.Depth)
+		defs[n] = g.body
+		order = append(order, n)
+	}
 	// prune: a definition without events whose callees are all pruned is SSkip
 	empty := map[string]bool{}
 	refRe := regexp.MustCompile(`lk_[A-Za-z0-9_]+_[0-9]+`)
@@ -583,6 +606,12 @@ func runLockTrace(repo string, spec lockSpec, out string) {
 		n := c.defName(f, spec.Depth)
 		if !empty[n] {
 			ents = append(ents, ent{c.baseName(f), n})
+		}
+	}
+	for _, g := range c.goBodies {
+		n := g.name + fmt.Sprintf("_%d", spec.Depth)
+		if !empty[n] {
+			ents = append(ents, ent{g.name, n})
 		}
 	}
 	sb.WriteString("(* object names *)\nDefinition lk_objects : list (N * string) :=\n  [")
